@@ -188,8 +188,8 @@ Needs(t, n) ==
     [] n \in ValidityKinds   -> t.validity = n
 Applicable(t, m) == \A n \in m.needs : Needs(t, n)
 
-Cases == {[tpl |-> t, mut |-> m] : t \in Templates, m \in MutationTable}
-ValidCase(x) == Applicable(x.tpl, x.mut)
+\* a case: a template with one applicable mutation ("none" included)
+IsCase(x) == x.tpl \in Templates /\ x.mut \in MutationTable /\ Applicable(x.tpl, x.mut)
 
 (* ---------------------------------------------------------------------- *)
 (* the pipeline (one object)                                               *)
@@ -205,7 +205,7 @@ VARIABLES
 vars == <<c, stage, todo, nfe, obj, err>>
 
 PipeInit ==
-  /\ c \in {x \in Cases : ValidCase(x)}
+  /\ \E t \in Templates, m \in MutationTable : Applicable(t, m) /\ c = [tpl |-> t, mut |-> m]
   /\ stage = "StrictDER"
   /\ todo = <<>>
   /\ nfe = {}
@@ -331,22 +331,25 @@ VARIABLES
   phase,   \* "der" (cut the input into objects), "fields" (fill each), "done"
   i,       \* next part
   lnfe,    \* non-fatal findings so far
-  list,    \* "nil" or the number of certificates
+  list,    \* NilList or Certs(n)
   lerr
 
 cvars == <<parts, phase, i, lnfe, list, lerr>>
 
-ConcatOff == parts = <<>> /\ phase = "off" /\ i = 0 /\ lnfe = FALSE /\ list = "nil" /\ lerr = "nil"
+NilList == [nil |-> TRUE, n |-> 0]
+Certs(k) == [nil |-> FALSE, n |-> k]
+
+ConcatOff == parts = <<>> /\ phase = "off" /\ i = 0 /\ lnfe = FALSE /\ list = NilList /\ lerr = "nil"
 
 ConcatStart ==
   /\ parts \in UNION {[1..n -> PartClasses] : n \in 1..MaxParts}
   /\ phase = "der"
   /\ i = 1
   /\ lnfe = FALSE
-  /\ list = "nil"
+  /\ list = NilList
   /\ lerr = "nil"
 
-ConcatFail == phase' = "done" /\ list' = "nil" /\ lerr' = "fatal" /\ UNCHANGED <<parts, i, lnfe>>
+ConcatFail == phase' = "done" /\ list' = NilList /\ lerr' = "fatal" /\ UNCHANGED <<parts, i, lnfe>>
 
 \* first loop: strict, then lax DER decoding of the next object; anything that is not an object is fatal
 ConcatDER ==
@@ -362,7 +365,7 @@ ConcatFields ==
   /\ phase = "fields"
   /\ IF i > Len(parts)
        THEN /\ phase' = "done"
-            /\ list' = Len(parts)
+            /\ list' = Certs(Len(parts))
             /\ lerr' = IF lnfe THEN "nonFatal" ELSE "nil"
             /\ UNCHANGED <<parts, i, lnfe>>
      ELSE IF parts[i] = "fatalField" THEN ConcatFail
@@ -382,11 +385,11 @@ Join(a, b) == IF "fatal" \in {a, b} THEN "fatal" ELSE IF "nonFatal" \in {a, b} T
 RECURSIVE JoinAll(_)
 JoinAll(s) == IF s = <<>> THEN "ok" ELSE Join(PartAlone(Head(s)), JoinAll(Tail(s)))
 
-ListClass == IF list = "nil" THEN "fatal" ELSE IF lerr = "nil" THEN "ok" ELSE "nonFatal"
+ListClass == IF list.nil THEN "fatal" ELSE IF lerr = "nil" THEN "ok" ELSE "nonFatal"
 
 \* the list outcome is the join of the parts' own outcomes, and coherent
 ConcatLaw == phase = "done" =>
                /\ ListClass = JoinAll(parts)
-               /\ (list = "nil" <=> lerr = "fatal")
-               /\ (list # "nil" => list = Len(parts))
+               /\ (list.nil <=> lerr = "fatal")
+               /\ (~list.nil => list.n = Len(parts))
 =============================================================================
